@@ -104,6 +104,12 @@ class Run:
             box['began_after_owner_done'] = box.get('owner_done', False)
             try:
                 box['result'] = ['ok', json.dumps(self.call(b, M, log), default=str)[:60]]
+                # a call that returns normally must return while the builder is still open (the
+                # instrumented flags are read from __dict__, which is not a scheduling point)
+                op = b._operation
+                closed = (b.__dict__.get('_fbmc__is_finished_build') if op is None
+                          else op.__dict__.get('_fbmc_is_finished'))
+                box['closed_at_return'] = bool(closed)
             except RuntimeError as e:
                 box['result'] = ['RuntimeError', str(e)[:50]]
             except Exception as e:
@@ -171,6 +177,7 @@ class Run:
             s.active = False
         s = sched.run_schedule(body, prefix, line, os.path.join(uni.REPO, 'file_builder'))
         out['straggler'] = box.get('result')
+        out['closed_at_return'] = box.get('closed_at_return', False)
         out['late_invoked'] = 'late_invoked' in log
         out['failure'] = None if s.failure is None else type(s.failure).__name__ + ':' + str(s.failure)[:80]
         out['audit'] = sorted(set(sched.AUDIT))
@@ -210,6 +217,10 @@ def judge(K, mode, M, o, attach):
     facts = {'builder': K, 'method': M, 'owner': mode}
     if o.get('audit'):
         out.append(('fence.appended_to_closed_record', dict(facts, what=o['audit'][0])))
+    if o.get('closed_at_return') and M not in ('read_text', 'read_binary'):
+        # (read_text / read_binary record their observation and only then open the file, which is a
+        # scheduling point of its own: returning after the close is fine there, the attachment test decides)
+        out.append(('fence.returned_normally_after_close', facts))
     if st is None:
         return [('fence.harness', {'K': K, 'M': M, 'why': 'straggler never ran'})]
     if st[0] not in ('ok', 'RuntimeError'):
